@@ -72,6 +72,14 @@ func zzPoolQuery(i int, step string) string {
 		return "query A{ a } query B{ b }" // the text of entry 20, requested with operation B
 	case 27:
 		return "query A{ a } query B{ b }" // ... and with an operation name the document lacks
+	case 28:
+		return "query Q($__pcv0: Int){ i(v:$__pcv0) r(x:5) }" // a client variable named like a synthetic one
+	case 29:
+		return "{ i(v:1) r(x:1) }" // the same literal in an Int and in an Int! position
+	case 30:
+		return "{ li(l:1) i(w:1) lnn(l:[1]) }" // ... in a [Int] (list of one), an Int and a [Int]! position
+	case 31:
+		return "{ s(t:\"x\") s2:s(u:\"x\") io(in:{b:\"x\"}) }" // ... in String and String! positions
 	}
 	return "{ a }"
 }
@@ -100,7 +108,7 @@ func zzNameString(name string, n int) string {
 	return s
 }
 
-const zzPoolSize = 28
+const zzPoolSize = 32
 
 func zzSameResultNoLoc(a, b *Result) bool {
 	if len(a.Errors) != len(b.Errors) || (a.Data == nil) != (b.Data == nil) {
@@ -165,7 +173,7 @@ func zzC06Step(c *PlanCache, schema *Schema, maxEntries int, normalize bool, qi 
 	}
 }
 
-var zzC06Concrete = []int{2, 3, 4, 5, 7, 8, 9, 10, 11, 13, 14, 15, 16, 17, 18, 19, 20, 21, 22, 23, 24, 25, 26, 27}
+var zzC06Concrete = []int{2, 3, 4, 5, 7, 8, 9, 10, 11, 13, 14, 15, 16, 17, 18, 19, 20, 21, 22, 23, 24, 25, 26, 27, 28, 29, 30, 31}
 
 // ZZ_C06_pairs: histories q0, q1, [Reset], q0 over the literal-free pool, every
 // cache size 1..2, Normalize on and off, nil cache.
@@ -250,4 +258,56 @@ func zzFailYnn(parent, field string, p ResolveParams) (interface{}, error, bool)
 		return nil, errors.New("boom"), true
 	}
 	return nil, nil, false
+}
+
+
+// ZZ_C06_variables: one prepared plan (or one cache entry) serves the same
+// document with different variable values: what the first request's variables
+// excluded must not be missing for the second, and vice versa.
+func ZZ_C06_variables() {
+	w := &zzWorld{}
+	schema := zzBuildSchema(w)
+	docs := []string{
+		"query Q($v:Boolean!){ n{id} n @include(if:$v){... on Obj{x}} u{__typename} u @skip(if:$v){... on Obj{y}} }",
+		"query Q($v:Boolean!){ o{x} o @skip(if:$v){y o{x}} ...F @include(if:$v) } fragment F on Query{ ol{id} }",
+		"query Q($v:Boolean!,$k:Int){ i(v:$k) x:i(v:2,w:$k) @skip(if:$v) io(in:{b:\"x\",a:$k}) }",
+	}
+	text := docs[zzChoice("doc", len(docs))]
+	mode := zzChoice("mode", 4) // 0 prepared plan, 1 plain cache, 2 normalising cache, 3 nil cache
+	var plan *Plan
+	var c *PlanCache
+	switch mode {
+	case 0:
+		var err error
+		plan, err = PlanQuery(&schema, zzParse(text), "")
+		zzAssert(err == nil, "PlanQuery")
+	case 1:
+		c = NewPlanCache(PlanCacheOptions{MaxEntries: 2})
+	case 2:
+		c = NewPlanCache(PlanCacheOptions{MaxEntries: 2, Normalize: true})
+	}
+	for round := 0; round < 3; round++ {
+		vars := map[string]interface{}{"v": zzBool("v" + zzItoa(round))}
+		if zzContains(text, "$k") && zzChoice("hask"+zzItoa(round), 2) == 1 {
+			vars["k"] = zzInt("k"+zzItoa(round), -1000, 1000)
+		}
+		want := Do(Params{Schema: schema, RequestString: text, VariableValues: vars})
+		var got *Result
+		if mode == 0 {
+			got = ExecutePlan(plan, ExecuteParams{Schema: schema, Args: vars})
+		} else {
+			pr := c.Get(&schema, text, "")
+			zzAssert(pr.Plan != nil, "valid document rejected by the plan cache")
+			args := map[string]interface{}{}
+			for k, v := range vars {
+				args[k] = v
+			}
+			for k, v := range pr.SynthArgs {
+				args[k] = v
+			}
+			got = ExecutePlan(pr.Plan, ExecuteParams{Schema: schema, Args: args})
+		}
+		zzAssert(zzSameResult(want, got), "response of a reused plan differs from Do for this request's variables")
+	}
+	zzCover("end")
 }
